@@ -198,7 +198,7 @@ def ghosts_same(v0, v1):
 @register
 class HashData(Contract):
     targets = (P + "utils.hash_data",)
-    prop = ("C05",)
+    prop = ("C05", "C13")
     params = {"data": DATA}
     returns = TInt
     trusted = True
@@ -209,7 +209,7 @@ class HashData(Contract):
 
 
 class _KeyRenaming(Contract):
-    prop = ("C05",)
+    prop = ("C05", "C13")
     returns = DATA
     trusted = True
     fn = None
@@ -247,7 +247,7 @@ class NestBilevel(_KeyRenaming):
 class _Storage(Contract):
     """Base of the four storage contracts; ``field`` = representation of the store."""
 
-    prop = ("C05",)
+    prop = ("C05", "C13")
     field = "_store"
     abstract = True
 
@@ -380,7 +380,7 @@ CELLS = ("self._max_index", "self._last_accessed_index")
 
 
 class _Bfc(Contract):
-    prop = ("C05",)
+    prop = ("C05", "C13")
     field = "_store"
 
     def v(self, c, which="old"):
